@@ -49,6 +49,19 @@ FIRST_MISSED = {
  "C17-g": "one flush per fresh client against an always-succeeding endpoint; sequence stream (one client, failed flush then successful ones, strict single-document readers) added",
  "C20-g": "needs more than 30 s of real time: caught by the THOROUGH tier only (longwait cases of 33 s and 65 s); the quick tier cannot exhibit it",
  "C20-h": "the fake Runtime API always answered at once; register/subscription latencies 0-200 ms added",
+ # round 5
+ "C01-i": "the parser configuration was fixed (ignore-host off, namespace empty, estimated-tags 0); configuration drawn per case, host-tagged and untagged lines from several senders added",
+ "C07-j": "datapoints were Metric literals, never lexed through the metric pool; lexed batches and noise ops (recycled tag buffers overwritten while maps are held) added, key-consistency monitor added",
+ "C03-i": "no bare sign was ever a metric value; 58 value shapes (bare signs, points, exponents, boundaries) for every type added",
+ "C03-j": "HTTP ingestion dispatched into a capturing handler; chain stream into the real TagHandler / BackendHandler / aggregator workers / flush in a child process with revisited series added",
+ "C10-i": "input tag slices never aliased each other; cloud stream (real CloudHandler cache-hit path in front of the real TagHandler, shared cached instance) added",
+ "C04-j": "the CloudWatch client was built through a hook constructor that bypassed NewClient; every backend now built through its real FromViper constructor (AWS_CA_BUNDLE emptied), series with 9-15 tags added",
+ "C12-i": "no huge period values; hours / MaxInt64 periods added",
+ "C12-j": "no sub-second periods and stamps lived on a purely virtual axis; wall-clock-consistent stamps, millisecond regime and Peek trains added",
+ "C17-i": "tag lists were literals (cap == len); every series' Tags built with spare capacity as the pipeline produces them",
+ "C19-j": "the harness re-assembled the pipeline by hand; server stream through the real statsd.Server.RunWithCustomSocket with HTTP ingestion and both entry points added",
+ "C20-i": "data was ingested over a unix-datagram socket and never concurrently with runtimeDone; httpdata stream (HTTP ingestion racing runtimeDone, several slots) added",
+ "C20-j": "as C20-i (large batches posted right before runtimeDone)",
 }
 rows = []
 for d in sorted(glob.glob(os.path.join(ROOT, "seeded", "C??-?"))):
